@@ -22,14 +22,22 @@ def model_check(tier, wd, out):
     cfg = os.path.join(wd, "MC_Storage.cfg")
     for d, maxops in ((2, 2),) if tier == "quick" else ((2, 3), (1, 4)):
         with open(cfg, "w") as f:
-            f.write(f"SPECIFICATION Spec\nCONSTANTS\n  D = {d}\n  Vals = {{1, 2}}\n  MaxOps = {maxops}\n  MaxBatch = 2\n"
-                    "INVARIANTS Durable Reported Dur\nCHECK_DEADLOCK FALSE\n")
+            f.write(f"SPECIFICATION Spec\nCONSTANTS\n  D = {d}\n  Vals = {{1, 2}}\n  MaxOps = {maxops}\n  MaxBatch = 2\n  Variant = \"none\"\n"
+                    "INVARIANTS Durable Reported Dur CrashDur FlushBarrier\nCHECK_DEADLOCK FALSE\n")
         res = tlc_mc("Storage", cfg, f"mc-storage-{out.prop}", workers=8, timeout=3000)
         require_mc_ok(res, f"Storage.tla D={d} MaxOps={maxops}",
-                      must_take=["StartDelete", "StartAppend", "StartRange", "Step"])
+                      must_take=["StartDelete", "StartAppend", "StartRange", "Step", "Crash"])
         out.add(states=res["distinct"], transitions=res["generated"])
-        out.notes.append(f"TLC Storage.tla D={d} MaxOps={maxops} (every fault position of every history): {res['distinct']} "
-                         f"distinct states, {res['generated']} transitions; Durable, Reported, Dur hold")
+        out.notes.append(f"TLC Storage.tla D={d} MaxOps={maxops} (every fault position and every crash point of every history): {res['distinct']} "
+                         f"distinct states, {res['generated']} transitions; Durable, Reported, Dur, CrashDur, FlushBarrier hold")
+    # vacuity control: the lazy flush (seeded C16-m4) must be refuted by the crash-point invariants
+    with open(cfg, "w") as f:
+        f.write("SPECIFICATION Spec\nCONSTANTS\n  D = 1\n  Vals = {1, 2}\n  MaxOps = 4\n  MaxBatch = 2\n  Variant = \"lazy-flush\"\n"
+                "INVARIANTS CrashDur FlushBarrier\nCHECK_DEADLOCK FALSE\n")
+    res = tlc_mc("Storage", cfg, f"mc-storage-{out.prop}-neg", workers=2, timeout=900, coverage=False)
+    if not res.get("violated"):
+        raise ToolError("Storage.tla: the lazy-flush variant was not refuted (vacuous crash-point invariants)")
+    out.notes.append("Storage.tla: the faulty variant 'lazy-flush' (flush skipped after batch-only writes) is refuted by TLC")
 
 
 def histories_from_tlc(wd, rnd, num, length, depth):
